@@ -9,6 +9,7 @@
   build.
 -/
 import PsutilModel.Proofs.C09Disk
+import PsutilModel.Proofs.C09Usage
 namespace Psutil.C09
 open Spec
 
@@ -106,6 +107,29 @@ theorem C09_net_total_is_sum (h1 h2 : Bytes) (ifs : List Iface) (wf : NetWF netC
   cases ifs with
   | nil => exact absurd rfl hne
   | cons i r => simp [expectNet, Expect.toOut, sumFields, List.map_map, Function.comp_def]
+
+/-- why `rfind`: with `find` an interface whose name contains a colon (`a:b`) is cut at the
+    first colon, the tail no longer starts with a number and the whole call fails -/
+theorem C09_net_find_counterexample (i : Iface) (h : i.name = [97, 58, 98]) :
+    netLine { netCfg with rfind := false } (renderNetLine i) = .err .valueError := by
+  have hline : renderNetLine i = [32, 32, 32, 97] ++ 58 :: ([98, 58] ++ renderCells i.cells) := by
+    simp [renderNetLine, h, padLeft]
+  have hfind : findIdx? 58 (renderNetLine i) = some 4 := by
+    rw [hline]; exact findIdx?_first 58 [32, 32, 32, 97] _ (by decide)
+  have hsplit : splitP isWsT ([98, 58] ++ renderCells i.cells)
+      = [98, 58] :: i.cells.map fun wv => renderDec wv.2 := by
+    have := splitP_layout isWsT [] [98, 58] (i.cells.map cellItem) []
+      (by intro c hc; cases hc) ⟨by decide, by simp [NoP, isWsT, isWs]⟩ (good_cellItems _)
+      (by intro c hc; cases hc)
+    rw [renderCells_glue]
+    simpa [cellItem, List.map_map, Function.comp_def] using this
+  unfold netLine
+  simp only [Bool.false_eq_true, if_false, hfind]
+  have hdrop : (renderNetLine i).drop (3 + 1 + 1) = [98, 58] ++ renderCells i.cells := by
+    rw [hline]; rfl
+  simp only [hdrop, hsplit, ints]
+  have : parseDec? [98, 58] = none := by decide
+  simp [this]
 
 /-! ### every name the kernel accepts (lead: control characters / Unicode spaces at the ends) -/
 
@@ -332,6 +356,17 @@ theorem C09_disk_usage (st : StatVfs) :
       = some { total := (usage st).total, used := (usage st).used, free := (usage st).free,
                percentExact := (usage st).percent, roundDigits := 1 } := by
   rfl
+
+/-- on a file system whose free count does not exceed its size, 0 ≤ percent ≤ 100 -/
+theorem C09_usage_percent_range (st : StatVfs) (h : st.bfree ≤ st.blocks) :
+    0 ≤ (usage st).percent ∧ (usage st).percent ≤ 100 := usage_percent_range st h
+
+/-- `used + free ≤ total` whenever the space available to users does not exceed the space free for root -/
+theorem C09_usage_within_total (st : StatVfs) (h : st.bavail ≤ st.bfree) :
+    (usage st).used + (usage st).free ≤ (usage st).total := usage_within_total st h
+
+/-- rounding to one decimal moves the percentage by at most 0.05 -/
+theorem C09_usage_round1_close (q : Rat) : |round1 q - q| ≤ 1 / 20 := round1_close q
 
 /-! ## the hypotheses are satisfiable -/
 
